@@ -176,7 +176,7 @@ const TOKENS: [&str; 66] = [
     "not", "sum", "namespace", "attribute", "self", "parent", "9", "e", "#", "日", "\t", "\n", "preceding-sibling", "]]", "((",
 ];
 
-fn garbage(rng: &mut StdRng, valid: &[String]) -> String {
+pub fn garbage(rng: &mut StdRng, valid: &[String]) -> String {
     if !valid.is_empty() && rng.gen_bool(0.4) {
         // one edit of a valid expression
         let base: Vec<char> = valid[rng.gen_range(0..valid.len())].chars().collect();
